@@ -1,6 +1,7 @@
 //! One module per property (DESIGN.md section 5).
 pub mod common;
 
+pub mod c01;
 pub mod c02;
 pub mod c03;
 pub mod c04;
@@ -21,6 +22,7 @@ use crate::runner::Property;
 
 pub fn get(id: &str) -> Option<Property> {
     match id {
+        "C01" => Some(c01::property()),
         "C02" => Some(c02::property()),
         "C03" => Some(c03::property()),
         "C04" => Some(c04::property()),
